@@ -54,7 +54,7 @@ def media_param_uses_ok(ctx, func, pname, seen_funcs, bad, depth=0):
                 if not gs:
                     bad.append((func, n, 'passed to an unresolved call'))
                 for g, bound in gs:
-                    params = g.params[1:] if (g.cls is not None) else g.params
+                    params = g.bound_params()
                     if idx < len(params):
                         media_param_uses_ok(ctx, g, params[idx], seen_funcs, bad, depth + 1)
                 continue
@@ -134,7 +134,7 @@ def run(ctx, ck):
                         if not gs:
                             bad.append((f, node, 'passed to an unresolved call'))
                         for g, bound in gs:
-                            params = g.params[1:] if g.cls is not None else g.params
+                            params = g.bound_params()
                             if idx < len(params):
                                 media_param_uses_ok(ctx, g, params[idx], set(), bad)
                         continue
